@@ -255,6 +255,14 @@ def generate(plan) -> None:
         # found at a drawn level (a write that finds < 1 token is dropped by design: C07/C09 still apply, C08's counts do not)
         k["limits"] = rt.random() < 0.3
         k["mqtt_tokens"] = rt.choice([160, 160, 40, 8, 2, 0.5])
+    # which layer the callers use: the protocol's send_cmd (as the library's own layers do), the Engine's async_send_cmd, or the
+    # Gateway's send_cmd wrapper that returns a Task (no max_retries parameter there: the default of 3 applies)
+    if sc in ("send", "episode", "burst") and k.get("tr") != "mqtt":
+        k["api"] = rt.choice(["proto", "proto", "proto", "engine", "engine", "gateway_task"])
+        if k["api"] == "gateway_task":
+            for d in ops:
+                if d["op"] == "send":
+                    d["max_retries"] = 3
     if sc in ("send", "episode") and k.get("tr") != "mqtt" and not fault_free:
         x = rt.random()
         k["sig_echo"] = "never" if x < 0.06 else ("late" if x < 0.15 else "ok")
@@ -319,6 +327,7 @@ class QosSim:
         self.foreign_frames: dict[str, str] = {}  # frame text -> class
         self.tasks = {}
         self.inflight_faults = 0
+        self.engine = None
 
     def now(self) -> float:
         return self.loop.time()
@@ -544,8 +553,17 @@ class QosSim:
         op.call_seq = len(self.ctx.events)
         self.ctx.ev("call", op.id, op.frame)
         try:
-            pkt = await self.proto.send_cmd(cmd, priority=Priority(op.d["prio"]), qos=qos,
-                                            num_repeats=op.d["num_repeats"])
+            api = self.plan.knob("api", "proto")
+            if api == "engine":
+                pkt = await self.engine.async_send_cmd(cmd, priority=Priority(op.d["prio"]), max_retries=op.d["max_retries"],
+                                                       timeout=op.d["timeout"], wait_for_reply=op.d["wfr"],
+                                                       num_repeats=op.d["num_repeats"])
+            elif api == "gateway_task":
+                pkt = await self.engine.send_cmd(cmd, priority=Priority(op.d["prio"]), timeout=op.d["timeout"],
+                                                 wait_for_reply=op.d["wfr"], num_repeats=op.d["num_repeats"])
+            else:
+                pkt = await self.proto.send_cmd(cmd, priority=Priority(op.d["prio"]), qos=qos,
+                                                num_repeats=op.d["num_repeats"])
             op.outcome = ("pkt", str(pkt))
         except exc.ProtocolError as err:
             op.outcome = ("perr", type(err).__name__, str(err)[:120])
@@ -592,6 +610,23 @@ class QosSim:
             else:
                 self.tr._num_tokens = self.tr._max_tokens = 1e9
             self.ctx.probe("mqtt_transport")
+        elif k("api", "proto") != "proto":
+            self.ser = self.hub.add_port("/dev/sim0", self.gid, fw)
+            T.serial_for_url = self.hub.serial_for_url
+            if k("api") == "engine":
+                from ramses_tx.gateway import Engine
+
+                self.engine = Engine("/dev/sim0", disable_qos=k("disable_qos", False))
+                self.engine.add_msg_handler(self.msgs.append)
+            else:
+                from ramses_rf import Gateway
+
+                self.engine = Gateway("/dev/sim0", config={"disable_discovery": True, "enforce_known_list": False,
+                                                          "disable_qos": k("disable_qos", False)})
+            await self.engine.start()
+            self.proto = self.engine._protocol
+            self.tr = self.engine._transport
+            self.ctx.probe("api_" + k("api"))
         else:
             self.ser = self.hub.add_port("/dev/sim0", self.gid, fw)
             self.tr = T.PortTransport(self.ser, self.proto, loop=self.loop)
